@@ -60,6 +60,7 @@ class FakeTransport(asyncio.Transport):
         self.fail_after: Optional[int] = None  # fail the n-th write from now (1-based)
         self.black_hole = False
         self.write_paused = False
+        self.pause_after: Optional[int] = None  # back-pressure: pause writing once the n-th write from now was taken
         self._read_paused = False
         self._eof_seen = False
         self._pending_rx: list[bytes] = []
@@ -116,6 +117,13 @@ class FakeTransport(asyncio.Transport):
         self.net._event("tx", self.cid, b)
         if self.net.on_data is not None and not self.black_hole:
             self.net.on_data(self, b)
+        if self.pause_after is not None:
+            # a selector transport calls protocol.pause_writing() from inside write() when its buffer passes the
+            # high-water mark (the peer has stopped reading): the bytes are taken, the next drain() blocks
+            self.pause_after -= 1
+            if self.pause_after <= 0:
+                self.pause_after = None
+                self.pause_writing()
 
     def close(self) -> None:
         if self._closing:
@@ -193,11 +201,13 @@ class FakeTransport(asyncio.Transport):
     def pause_writing(self) -> None:
         if not self.write_paused and not self._closing:
             self.write_paused = True
+            self.net._event("pause", self.cid)
             self.protocol.pause_writing()
 
     def resume_writing(self) -> None:
         if self.write_paused:
             self.write_paused = False
+            self.net._event("resume", self.cid)
             self.protocol.resume_writing()
 
     def tx_bytes(self) -> bytes:
@@ -222,6 +232,7 @@ class FakeNet:
         self.inflight = 0
         self.arm_on_accept: list = []   # write-fault positions to arm on the next accepted connections
         self.close_latency = 0.0         # virtual seconds between transport.close() and connection_lost
+        self.pause_on_accept: list = []  # back-pressure positions (n-th write) for the next accepted connections
         _CURRENT[0] = self
 
     def _event(self, kind: str, *args) -> None:
@@ -279,6 +290,10 @@ class FakeNet:
             n = self.arm_on_accept.pop(0)
             if n:
                 tr.fail_write(n)
+        if self.pause_on_accept:
+            n = self.pause_on_accept.pop(0)
+            if n:
+                tr.pause_after = n
         return reader, writer
 
     def heal(self) -> None:
@@ -286,9 +301,11 @@ class FakeNet:
         self.script.clear()
         self.close_latency = 0.0
         self.arm_on_accept.clear()
+        self.pause_on_accept.clear()
         self.default = ("accept", 0.0)
         for c in self.conns:
             c.fail_after = None
+            c.pause_after = None
             c.black_hole = False
             if c.write_paused:
                 c.resume_writing()
